@@ -1,4 +1,7 @@
 CONSTANT MaxMods = 3
+CONSTANT MinMods = 2
+CONSTANT Spells <- AllSpells
+CONSTANT Places <- AllPlaces
 INIT Init
 NEXT Next
 INVARIANT EmitCase
